@@ -711,19 +711,22 @@ $
 
 pub fn parse_grep_line(line: &str) -> Option<GrepLine> {
     if line.starts_with('{') {
-        ripgrep_json::parse_line(line)
-    } else {
-        match &*process::calling_process() {
-            process::CallingProcess::GitGrep(_) | process::CallingProcess::OtherGrep => [
-                &*GREP_LINE_REGEX_ASSUMING_FILE_EXTENSION_AND_LINE_NUMBER,
-                &*GREP_LINE_REGEX_ASSUMING_FILE_EXTENSION_NO_SPACES,
-                &*GREP_LINE_REGEX_ASSUMING_FILE_EXTENSION,
-                &*GREP_LINE_REGEX_ASSUMING_NO_INTERNAL_SEPARATOR_CHARS,
-            ]
-            .iter()
-            .find_map(|regex| _parse_grep_line(regex, line)),
-            _ => None,
+        // Probably rg --json output; but a path may begin with '{' as well
+        // (e.g. "{{cookiecutter.project_slug}}/setup.py:1:import os").
+        if let Some(grep_line) = ripgrep_json::parse_line(line) {
+            return Some(grep_line);
         }
+    }
+    match &*process::calling_process() {
+        process::CallingProcess::GitGrep(_) | process::CallingProcess::OtherGrep => [
+            &*GREP_LINE_REGEX_ASSUMING_FILE_EXTENSION_AND_LINE_NUMBER,
+            &*GREP_LINE_REGEX_ASSUMING_FILE_EXTENSION_NO_SPACES,
+            &*GREP_LINE_REGEX_ASSUMING_FILE_EXTENSION,
+            &*GREP_LINE_REGEX_ASSUMING_NO_INTERNAL_SEPARATOR_CHARS,
+        ]
+        .iter()
+        .find_map(|regex| _parse_grep_line(regex, line)),
+        _ => None,
     }
 }
 
